@@ -402,6 +402,83 @@ pub fn check_number(ctx: &mut Ctx, lit: &str, full_targets: bool) {
     ctx.sample(|| json!({"literal": if lit.len() > 80 { &lit[..80] } else { lit }, "reference": format!("{:?}", want)}));
 }
 
+/// the value a literal denotes must not depend on what the same deserializer decoded before it:
+/// the literal as second element after a string that went through the scratch buffer, as a map
+/// value behind an escaped key, and as a quoted numeric key behind an escaped key - each compared
+/// with the bare literal through the same target type (which `check_number` judges against std)
+pub fn check_number_in_context(ctx: &mut Ctx, lit: &str) {
+    if refjson::number_shape(lit.as_bytes()).is_none() {
+        ctx.outcome("skipped:not-a-number");
+        return;
+    }
+    ctx.nontrivial();
+    macro_rules! target {
+        ($t:ty, $name:expr) => {{
+            let bare = guard(|| sonic_rs::from_str::<$t>(lit).ok());
+            let pair_text = format!("[\"\\u0031x\\n\",{lit}]");
+            let pair = guard(|| sonic_rs::from_str::<(String, $t)>(&pair_text).ok());
+            let map_text = format!("{{\"k\\t\":{lit}}}");
+            let map = guard(|| sonic_rs::from_str::<std::collections::BTreeMap<String, $t>>(&map_text).ok());
+            ctx.state();
+            ctx.calls(3);
+            match (&bare, &pair, &map) {
+                (Ok(b), Ok(p), Ok(m)) => {
+                    let p_ok = match (b, p) {
+                        (Some(b), Some((s, x))) => s == "1x\n" && format!("{:?}", b) == format!("{:?}", x),
+                        (None, None) => true,
+                        _ => false,
+                    };
+                    let m_ok = match (b, m) {
+                        (Some(b), Some(m)) => m.len() == 1 && m.get("k\t").map(|x| format!("{:?}", x)) == Some(format!("{:?}", b)),
+                        (None, None) => true,
+                        _ => false,
+                    };
+                    if p_ok && m_ok {
+                        ctx.outcome("context:same-as-bare");
+                    } else {
+                        viol(ctx, concat!("context-dependent/", $name), lit, format!("bare literal gives {:?}; after an escaped string in (String,T): {:?}; as map value behind an escaped key: {:?}", b, p, m));
+                    }
+                }
+                _ => viol(ctx, concat!("panic/context/", $name), lit, "panic".to_string()),
+            }
+        }};
+    }
+    macro_rules! key_target {
+        ($t:ty, $name:expr) => {{
+                // quoted numeric key behind an escaped outer key
+                let bare_key = guard(|| sonic_rs::from_str::<std::collections::BTreeMap<$t, u8>>(&format!("{{\"{lit}\":1}}")).ok());
+                let nested_text = format!("{{\"a\\tb\":{{\"{lit}\":1}}}}");
+                let nested = guard(|| sonic_rs::from_str::<std::collections::BTreeMap<String, std::collections::BTreeMap<$t, u8>>>(&nested_text).ok());
+                ctx.state();
+                ctx.calls(2);
+                match (&bare_key, &nested) {
+                    (Ok(b), Ok(n)) => {
+                        let inner = n.as_ref().and_then(|m| m.get("a\tb"));
+                        if format!("{:?}", b.as_ref()) == format!("{:?}", inner) && n.as_ref().map(|m| m.len() == 1).unwrap_or(true) {
+                            ctx.outcome("context:key-same-as-bare");
+                        } else {
+                            viol(ctx, concat!("context-dependent-key/", $name), lit, format!("bare map gives {:?}; nested behind an escaped key: {:?}", b, n));
+                        }
+                    }
+                    _ => viol(ctx, concat!("panic/context-key/", $name), lit, "panic".to_string()),
+                }
+        }};
+    }
+    target!(u8, "u8");
+    target!(i16, "i16");
+    target!(u64, "u64");
+    target!(i64, "i64");
+    target!(u128, "u128");
+    target!(i128, "i128");
+    target!(f64, "f64");
+    target!(f32, "f32");
+    key_target!(u8, "u8");
+    key_target!(u64, "u64");
+    key_target!(i64, "i64");
+    key_target!(u128, "u128");
+    key_target!(i128, "i128");
+}
+
 // ------------------------------------------------------------------------------------------
 // families
 
@@ -563,6 +640,27 @@ pub fn families(tier: Tier, _variant: &str) -> Vec<Family> {
         }));
     }
     v.push(Family::of_vec("digit-counts", digit_count_literals(if q { 330 } else { 800 }), |s, ctx| check_number(ctx, s, true)));
+    {
+        // state carried inside one deserializer: numbers behind escaped strings / keys
+        let mut lits = boundary_int_literals();
+        lits.extend(exponent_literals());
+        lits.extend(power_literals().into_iter().step_by(if q { 40 } else { 5 }));
+        let k = gen::N10.len() as u64;
+        let l = if q { 3 } else { 5 };
+        let mut seq = vec![];
+        let mut d = vec![];
+        for idx in 0..gen::seq_count(k, l) {
+            gen::nth_seq(k, l, idx, &mut seq);
+            gen::concat(gen::N10, &seq, &mut d);
+            let s = String::from_utf8(d.clone()).unwrap();
+            if refjson::number_shape(s.as_bytes()).is_some() {
+                lits.push(s);
+            }
+        }
+        lits.sort();
+        lits.dedup();
+        v.push(Family::of_vec("numbers-behind-escaped-strings", lits, |s, ctx| check_number_in_context(ctx, s)));
+    }
     v.push(Family::of_vec("powers-of-ten", power_literals(), |s, ctx| check_number(ctx, s, false)));
     v.push(Family::of_vec("integer-boundaries", boundary_int_literals(), |s, ctx| check_number(ctx, s, true)));
     v.push(Family::of_vec("exponents", exponent_literals(), |s, ctx| check_number(ctx, s, true)));
